@@ -161,7 +161,8 @@ def matcher(kind, text, ic):
 # completely become word-delimited regexes) of one priority, expected in the
 # same state, some a word-boundary-delimited prefix of another, declared under
 # names of different lengths: the longest matching keyword is the token.
-KW_POOL = ["a", "a-a", "a-b", "a-a-a", "ab", "b"]
+KW_POOL = ["a", "a-a", "a-b", "a-a-a", "ab", "b", "a-"]   # "a-": plain string
+KW_RULE = r"\w+(-\w+)*"
 KW_INPUTS = KW_POOL + ["", "a-", "a-c", "aa", "a-a-b", "a-ab", "b-a", "a-a-",
                        "a-a-a-a", "ab-a", "c"]
 KW_NAMELEN = (1, 4, 8)
@@ -188,7 +189,7 @@ def run_kw_unit(u):
         names = ["T" + "x" * (ln - 1) + str(i) for i, ln in enumerate(lens)]
         text = "S: " + " | ".join(names) + ";\nterminals\n" + "".join(
             f"{nm}: '{KW_POOL[k]}';\n" for nm, k in zip(names, sub)) + \
-            "KEYWORD: /\\w+(-\\w+)*/;\n"
+            "KEYWORD: /" + KW_RULE + "/;\n"
         try:
             lr = build("lr", grammar_from_string(text), mon, tag=(gi, "kw"),
                        build_tree=True, consume_input=False, ws="")
@@ -199,8 +200,12 @@ def run_kw_unit(u):
             continue
         st["grammars"] += 1
         for w in KW_INPUTS:
+            # a string that the KEYWORD rule matches completely is a keyword
+            # (word-delimited), any other string matches as a plain prefix
             cands = [(nm, KW_POOL[k]) for nm, k in zip(names, sub)
-                     if re.match(r"\b" + re.escape(KW_POOL[k]) + r"\b", w)]
+                     if (re.match(r"\b" + re.escape(KW_POOL[k]) + r"\b", w)
+                         if re.fullmatch(KW_RULE, KW_POOL[k])
+                         else w.startswith(KW_POOL[k]))]
             want = ("token", max(cands, key=lambda c: len(c[1]))) \
                 if cands else ("none",)
             case = {"grammar": text, "parser": "lr", "input": w,
@@ -411,7 +416,7 @@ def evidence(total, tier, seed, complete):
                 "the full candidate set; GLR forks without lexical "
                 "disambiguation; non-trivial = >= 2 candidates match; "
                 "KEYWORD family: every set of <= 3 keyword terminals from "
-                "{a, a-a, a-b, a-a-a, ab, b} (KEYWORD: /\\w+(-\\w+)*/) x every "
+                "{a, a-a, a-b, a-a-a, ab, b} and the plain string a- (KEYWORD: /\\w+(-\\w+)*/) x every "
                 "assignment of rule-name lengths {1,4,8} x 17 inputs, LR token "
                 "= longest word-delimited match",
         "samples": total.get("samples", [])[:4],
